@@ -766,3 +766,40 @@ def partially_shared_mps(rng, psi, nrep=None):
         new = rng.normal(size=a.shape) + 1j * rng.normal(size=a.shape)
         chi.A[i] = np.where(mask, new, 0) / np.sqrt(max(a.shape[0] * a.shape[1], 1))
     return chi, sites
+
+
+def labelled_sector_mps(rng, qd, L, qtot, modes=None, kind='complex'):
+    """
+    A generic state on a manifold that admits every vector of the total-charge sector `qtot`, with the bond labels enumerated per bond in one of three
+    ways: 'left' (every charge reachable from the left end, full multiplicity), 'right' (qtot minus every charge reachable from the right end), 'min'
+    (the smaller multiplicity per charge: the minimal complete manifold). Mixed enumerations give over-complete labellings (sectors without support
+    on one side). Returns (psi, modes).
+    """
+    import collections
+    qd = np.asarray(qd)
+    modes = modes or [str(rng.choice(['left', 'right', 'min'])) for _ in range(L - 1)]
+    sums = [np.array([0])]
+    for _ in range(L):
+        sums.append(np.sort(np.add.outer(sums[-1], qd).reshape(-1)))
+    qD = [np.array([0])]
+    for i in range(1, L):
+        lft = sums[i]
+        rgt = np.sort(int(qtot) - sums[L - i])
+        if modes[i - 1] == 'left':
+            q = lft
+        elif modes[i - 1] == 'right':
+            q = rgt
+        else:
+            nl, nr = collections.Counter(lft.tolist()), collections.Counter(rgt.tolist())
+            q = np.array(sorted(sum(([x] * min(nl[x], nr[x]) for x in nl if nr.get(x, 0) > 0), [])), dtype=int)
+            if q.size == 0:
+                q = lft[:1]
+        qD.append(np.asarray(q, dtype=int))
+    qD.append(np.array([int(qtot)]))
+    psi = ptn.MPS(qd, qD, fill='postpone')
+    d = len(qd)
+    for i in range(L):
+        A = entries(rng, (d, len(qD[i]), len(qD[i + 1])), kind)
+        mask = np.add.outer(np.add.outer(qd, qD[i]), -qD[i + 1])
+        psi.A[i] = np.where(mask == 0, A, 0)
+    return psi, modes
